@@ -240,12 +240,18 @@ func formulaPillarOne(rng *rand.Rand, out *Out) {
 	k := rng.Intn(len(st.names))
 	ep, tw, ps := st.term()
 	var d, b, t *big.Int
-	s := status(func() error { d, b, t = implementation.VerifPillarEpochReward(st.api(), pillarName(st.names[k])); return nil })
+	s := status(func() error {
+		d, b, t = implementation.VerifPillarEpochReward(st.api(), pillarName(st.names[k]))
+		return nil
+	})
 	tag := "reward"
 	switch {
 	case s != 0:
 		d, b, t = big.NewInt(-1), big.NewInt(-1), big.NewInt(-1)
 		tag = "panic"
+		// the routine runs on the producing pillar inside a contract receive: a panic there takes the pillar down
+		// and the epoch is never rewarded (no panic occurs on the unchanged tree for any generated input)
+		out.Oracle(false, "reward-routine-panics", M{"routine": "pillar-epoch-reward"})
 	case st.exp[k] == 0:
 		tag = "expected-zero"
 	case st.tw.Sign() == 0:
@@ -367,6 +373,9 @@ func formulaPillarEpoch(rng *rand.Rand, out *Out) {
 		tag = "error:" + errPath
 	case s == 2:
 		tag = "panic"
+		// the routine runs on the producing pillar inside a contract receive: a panic there takes the pillar down
+		// and the epoch is never rewarded (no panic occurs on the unchanged tree for any generated input)
+		out.Oracle(false, "reward-routine-panics", M{"routine": "stake-or-sentinel-epoch-rewards"})
 	case len(st.names) == 0:
 		tag = "done-empty"
 	case !wf:
@@ -820,7 +829,10 @@ func formulaLiqStake(rng *rand.Rand, out *Out) {
 	}
 	var blocks []*nom.AccountBlock
 	var rerr error
-	s := status(func() error { blocks, rerr = implementation.VerifComputeLiquidityStakeRewardsForEpoch(ctx, epoch); return rerr })
+	s := status(func() error {
+		blocks, rerr = implementation.VerifComputeLiquidityStakeRewardsForEpoch(ctx, epoch)
+		return rerr
+	})
 	if s == 1 && rerr != constants.ErrInvalidRewards {
 		out.Oracle(false, "liquidity-stake-unexpected-error", M{"err": rerr.Error()})
 		return
@@ -867,6 +879,9 @@ func formulaLiqStake(rng *rand.Rand, out *Out) {
 		tag = "invalid-rewards"
 	case s == 2:
 		tag = "panic"
+		// the routine runs on the producing pillar inside a contract receive: a panic there takes the pillar down
+		// and the epoch is never rewarded (no panic occurs on the unchanged tree for any generated input)
+		out.Oracle(false, "reward-routine-panics", M{"routine": "liquidity-stake-epoch-rewards"})
 	case halted:
 		tag = "halted"
 	case len(cs) == 0:
